@@ -143,7 +143,7 @@ def glob_events(rng, sc, lha, hdr, tier, ev):
         m.update(produced=len(g.data), good=True, data=list(g.data), exists=False)
         mm.append(m)
     maxl = 3 if tier == "quick" else 5
-    pats = [bytes(t) for L in range(1, maxl + 1) for t in itertools.product(b"*?ab", repeat=L)]
+    pats = [bytes(t) for L in range(1, maxl + 1) for t in itertools.product(b"*?abd/", repeat=L)]
     for _ in range(120 if tier == "quick" else 1500):
         pats.append(bytes(rng.choice(b"**??ab/d") for _ in range(rng.randint(maxl + 1, 7))))
     out = []
